@@ -354,3 +354,16 @@ impl RtpsWriterProxy {
     }
   }
 } // impl
+
+// Verification accessors (see /verif/DESIGN.md). Compiled only with `--cfg rustdds_verif`.
+#[cfg(rustdds_verif)]
+impl RtpsWriterProxy {
+  /// (sequence number, true = received / false = marked not available) at or after ack_base
+  pub(crate) fn verif_changes(&self) -> Vec<(SequenceNumber, bool)> {
+    self
+      .changes
+      .range(self.ack_base..)
+      .map(|(sn, t)| (*sn, t.is_some()))
+      .collect()
+  }
+}
